@@ -198,8 +198,15 @@ func (s *MultilineReverseSuffixSearcher) Find(haystack []byte) *Match {
 			if end >= 0 {
 				return NewMatch(lineStart, end, haystack)
 			}
-			// Move past this suffix candidate
-			pos = suffixPos + 1
+			// The anchored search from this line start has failed, so no match starts
+			// on this line, whichever suffix occurrence is looked at (all candidates of
+			// a line share its start). Going on with the next occurrence on the same
+			// line would rescan the line once per occurrence: go to the next line.
+			nextLine := bytes.IndexByte(haystack[suffixPos:], '\n')
+			if nextLine == -1 {
+				return nil
+			}
+			pos = suffixPos + nextLine + 1
 		}
 
 		if pos >= len(haystack) {
@@ -262,8 +269,15 @@ func (s *MultilineReverseSuffixSearcher) FindAt(haystack []byte, at int) *Match 
 			if end >= 0 {
 				return NewMatch(lineStart, end, haystack)
 			}
-			// Move past this suffix candidate
-			pos = suffixPos + 1
+			// The anchored search from this line start has failed, so no match starts
+			// on this line, whichever suffix occurrence is looked at (all candidates of
+			// a line share its start). Going on with the next occurrence on the same
+			// line would rescan the line once per occurrence: go to the next line.
+			nextLine := bytes.IndexByte(haystack[suffixPos:], '\n')
+			if nextLine == -1 {
+				return nil
+			}
+			pos = suffixPos + nextLine + 1
 		}
 
 		if pos >= len(haystack) {
@@ -330,8 +344,15 @@ func (s *MultilineReverseSuffixSearcher) findIndicesAtImpl(haystack []byte, at i
 			if endPos >= 0 {
 				return lineStart, endPos, true
 			}
-			// Move past this suffix candidate
-			pos = suffixPos + 1
+			// The anchored search from this line start has failed, so no match starts
+			// on this line, whichever suffix occurrence is looked at (all candidates of
+			// a line share its start). Going on with the next occurrence on the same
+			// line would rescan the line once per occurrence: go to the next line.
+			nextLine := bytes.IndexByte(haystack[suffixPos:], '\n')
+			if nextLine == -1 {
+				return -1, -1, false
+			}
+			pos = suffixPos + nextLine + 1
 		}
 
 		if pos >= len(haystack) {
@@ -392,8 +413,15 @@ func (s *MultilineReverseSuffixSearcher) IsMatch(haystack []byte) bool {
 			if matched {
 				return true
 			}
-			// Move past this suffix candidate
-			pos = suffixPos + 1
+			// The anchored search from this line start has failed, so no match starts
+			// on this line, whichever suffix occurrence is looked at (all candidates of
+			// a line share its start). Going on with the next occurrence on the same
+			// line would rescan the line once per occurrence: go to the next line.
+			nextLine := bytes.IndexByte(haystack[suffixPos:], '\n')
+			if nextLine == -1 {
+				return false
+			}
+			pos = suffixPos + nextLine + 1
 		}
 
 		if pos >= len(haystack) {
